@@ -57,11 +57,13 @@ EXHAUSTIVE = {"quick": False, "thorough": False}
 ASSUMPTIONS = [
     "variables are of UPnP type i4, boolean or string and are assigned values of their own type (validation is C08/C14's subject); "
     "string values consist of characters XML 1.0 can carry",
+    "a CALLBACK header carries one URL",
     "header text is ASCII; TIMEOUT values have at most 9 digits (beyond that timedelta overflows: outside the alphabet)",
     "each operation is followed by running the loop until idle (a burst operation makes its assignments without yielding in between)",
     "a NOTIFY delivery completes, fails (UpnpConnectionError / TimeoutError) or stays outstanding; failed deliveries are not retried by the code",
 ]
-TRUSTED = ["C15: asyncio run-to-quiescence semantics and the µs-snapped virtual-time loop; aiohttp Response.prepare on a mocked request"]
+TRUSTED = ["C15: asyncio run-to-quiescence semantics and the µs-snapped virtual-time loop; aiohttp Response.prepare on a mocked request",
+           "C15: the attribution search (harness `attribute`) is complete w.r.t. the monitor's J4/J5 rules; whatever it emits is verified by the Lean monitor"]
 
 BASE_US = 1704067200_000000  # 2024-01-01T00:00:00Z
 
@@ -364,8 +366,8 @@ def run_recipe(ctx: Ctx, recipe: Dict[str, Any], cid: str) -> Case:
             obs.append(f"@{k} o notify {sid_idx(k, sid)} {seq if ok else 'bad-' + seq} {now_us()} {tok_str(url)} {btok}")
             if seq != "0":
                 stats["post"] += 1
-            await fut
-            return 200, {}, ""
+            status = await fut
+            return status or 200, {}, ""  # the subscriber's answer (the server ignores it: 412 / 500 change nothing)
 
     orig_trigger = saved[2]
 
@@ -593,7 +595,10 @@ def run_recipe(ctx: Ctx, recipe: Dict[str, Any], cid: str) -> Case:
                     continue
                 lines.append(f"{at}{name} {n}")
                 if name == "done":
-                    parked[k][n].set_result(None)
+                    st_code = ctx.rng.choice([200, 200, 200, 412, 500])
+                    if st_code != 200:
+                        tags.add(f"subscriber-answers:{st_code}")
+                    parked[k][n].set_result(st_code)
                 else:
                     parked[k][n].set_exception(ctx.rng.choice([UpnpConnectionError("refused"), asyncio.TimeoutError()]))
                 await _settle(loop)
